@@ -15,6 +15,7 @@ import FwdVerif.Lemmas.ReqRules
 import FwdVerif.Lemmas.ReqUpgrade
 import FwdVerif.Lemmas.ReqSeq
 import FwdVerif.Lemmas.C01Conn
+import FwdVerif.Lemmas.C01Peer
 
 namespace FwdVerif
 namespace C01
@@ -228,6 +229,38 @@ theorem c01_hop_by_hop_removed_rules (h : processRequest cfg ctx r = .forwarded 
 example : (∀ ρ ∈ exCfgRules.rules, ruleTouches (bs "keep-alive") ρ = false) ∧
     checkFwd (processRequest exCfgRules exCtx exReq) (fun out =>
       outValues out (bs "keep-alive") == []) = true := by decide +kernel
+
+/-- the fixed hop-by-hop list is removed whatever the request's `Connection` field says: no hypothesis on
+    `r` at all — no Connection line, a lone `keep-alive` / `close` (what most clients send), any options on any
+    number of lines.  (`connection`, `upgrade`, `transfer-encoding`, `trailer`, `proxy-authorization` are written
+    by the proxy or the transport themselves and have their own clauses.) -/
+theorem c01_fixed_hop_by_hop_removed_whatever_connection_says
+    (h : processRequest cfg ctx r = .forwarded hop out) (hr : cfg.rules = []) {n : Bytes}
+    (hn : n ∈ [bs "keep-alive", bs "proxy-authenticate", bs "proxy-connection", bs "te"]) :
+    outValues out n = [] := by
+  have h4 : ∀ m ∈ [bs "keep-alive", bs "proxy-authenticate", bs "proxy-connection", bs "te"],
+      m.all isTokenByte = true ∧ lower m = m ∧ m ∉ managedLower ∧ m ∈ hopByHopLower := by decide +kernel
+  obtain ⟨a, b, c, d⟩ := h4 n hn
+  exact c01_hop_by_hop_removed h hr a b c (Or.inl d)
+
+/-- `GET / HTTP/1.1` with a lone `Connection: keep-alive` (or `close`) next to fields of the fixed list -/
+def exReqLone (opt : Bytes) : Request where
+  method := bs "GET"
+  minor := 1
+  target := .origin
+  path := bs "/"
+  query := none
+  fields := [(bs "Host", bs "origin.test"), (bs "Connection", opt), (bs "TE", bs "trailers"),
+    (bs "Keep-Alive", bs "timeout=5"), (bs "Proxy-Authenticate", bs "Basic realm=\"x\""),
+    (bs "Proxy-Connection", bs "keep-alive"), (bs "Proxy-Authorization", bs "Basic Zm9vOmJhcg=="), (bs "X-Custom", bs "v")]
+
+example : ∀ opt ∈ [bs "keep-alive", bs "close", bs "Keep-Alive"],
+    nominated (exReqLone opt) = [lower opt] ∧ isFwd (processRequest exCfg exCtx (exReqLone opt)) = true ∧
+    checkFwd (processRequest exCfg exCtx (exReqLone opt)) (fun out =>
+      outValues out (bs "te") == [] && outValues out (bs "keep-alive") == [] &&
+      outValues out (bs "proxy-authenticate") == [] && outValues out (bs "proxy-connection") == [] &&
+      outValues out (bs "proxy-authorization") == [] && outValues out (bs "x-custom") == [bs "v"]) = true := by
+  decide +kernel
 
 /-- the only `Connection` values the next hop can see are the proxy's own `close` and, when an
     upgrade is requested, `Upgrade` -/
@@ -1090,6 +1123,136 @@ example :
     ((ReqConn.frames exStreamRefusedBody).1.map (hopOf exCfgGate exCtx)).map HopMsg.summary =
       [([], [], none), (bs "POST", bs "/next", some 2)] := by decide +kernel
 
+/-! ## 16 the client address: what `X-Forwarded-For` records for every kind of peer
+
+`req.RemoteAddr` is `conn.RemoteAddr().String()` = `net.JoinHostPort(ip, port)` of the socket's peer
+address or of the source a PROXY protocol header announces: `ip:port` for an IPv4 address, `[ip]:port`
+for an IPv6 address.  `connCtx` takes the client address from it the way `NewForwardedModifier` does. -/
+
+/-- whatever the address family: the host recorded for a peer `JoinHostPort(ip, port)` is `ip`, without
+    port and without brackets (`ip`: no bracket in it — no textual IP address has one; `port`: decimal) -/
+theorem c01_peer_host_join {ip port : Bytes} (hl : 91 ∉ ip) (hr : 93 ∉ ip)
+    (pc : 58 ∉ port) (pl : 91 ∉ port) (pr : 93 ∉ port) :
+    peerHost (netJoinHostPort ip port) = ip := by
+  unfold peerHost
+  by_cases hc : 58 ∈ ip
+  · rw [split_join_bracketed hc hl hr pc pl pr]
+  · rw [split_join_plain hc hl hr pc pl pr]
+
+/-- a `RemoteAddr` that is no host:port at all is recorded as it is -/
+theorem c01_peer_host_unsplittable {ra : Bytes} (h : netSplitHostPort ra = none) : peerHost ra = ra := by
+  unfold peerHost
+  rw [h]
+
+example : peerHost (bs "127.0.0.1:4711") = bs "127.0.0.1" ∧ peerHost (bs "[::1]:4711") = bs "::1" ∧
+    peerHost (bs "[2001:db8::1]:51000") = bs "2001:db8::1" ∧ peerHost (bs "[::ffff:c000:209]:0") = bs "::ffff:c000:209" ∧
+    netJoinHostPort (bs "2001:db8::1") (bs "51000") = bs "[2001:db8::1]:51000" ∧
+    peerHost (bs "@") = bs "@" := by decide +kernel
+
+/-- the `X-Forwarded-For` clause in terms of the connection: all client lines in order, then the IP
+    address of the peer — IPv4 or IPv6, socket or PROXY protocol header — and nothing of its port or of
+    the brackets `RemoteAddr` puts around an IPv6 address -/
+theorem c01_xff_peer_address {ip port : Bytes} {secure : Bool}
+    (h : processRequest cfg (connCtx (netJoinHostPort ip port) secure) r = .forwarded hop out)
+    (hr : cfg.rules = []) (hnom : bs "x-forwarded-for" ∉ nominated r)
+    (hne : ∀ v ∈ inValues r (bs "x-forwarded-for"), v ≠ [])
+    (hl : 91 ∉ ip) (hrb : 93 ∉ ip) (pc : 58 ∉ port) (pl : 91 ∉ port) (pr : 93 ∉ port) :
+    outValues out (bs "x-forwarded-for") =
+      [joinWith (bs ", ") ((inValues r (bs "x-forwarded-for")).filter (fun v => !v.isEmpty) ++ [ip])] := by
+  rw [c01_xff_full h hr hnom hne]
+  show [joinWith (bs ", ") (_ ++ [peerHost (netJoinHostPort ip port)])] = _
+  rw [c01_peer_host_join hl hrb pc pl pr]
+
+/-- the counter-model ("cut the port off at the last colon") cannot be told from the code by any
+    IPv4 client: for an address without colon it records the same host -/
+theorem c01_cut_last_colon_plain {ip port : Bytes} (hc : 58 ∉ ip) (hne : ip ≠ []) (pc : 58 ∉ port) :
+    cutLastColon (netJoinHostPort ip port) = ip := by
+  have hj : netJoinHostPort ip port = ip ++ 58 :: port := by
+    unfold netJoinHostPort
+    rw [contains_false_of_not_mem hc]
+    simp
+  unfold cutLastColon
+  rw [hj, lastIndexOfByte_app ip pc]
+  have : ip.length > 0 := List.length_pos_iff.mpr hne
+  simp [this]
+
+/-- … and an IPv6 client tells them apart: the counter-model records the address with its brackets,
+    so the statement of `c01_peer_host_join` is false of it -/
+theorem c01_cut_last_colon_witness :
+    ¬ (∀ ip port : Bytes, 91 ∉ ip → 93 ∉ ip → 58 ∉ port → 91 ∉ port → 93 ∉ port →
+        cutLastColon (netJoinHostPort ip port) = ip) := by
+  intro h
+  have := h (bs "2001:db8::1") (bs "51000") (by decide +kernel) (by decide +kernel) (by decide +kernel)
+    (by decide +kernel) (by decide +kernel)
+  revert this
+  decide +kernel
+
+example : cutLastColon (bs "[2001:db8::1]:51000") = bs "[2001:db8::1]" ∧
+    cutLastColon (bs "192.0.2.7:4711") = bs "192.0.2.7" ∧
+    checkFwd (processRequest exCfg (connCtx (bs "[2001:db8::1]:51000")) exReq) (fun out =>
+      outValues out (bs "x-forwarded-for") == [bs "198.51.100.1, 2001:db8::1"]) = true ∧
+    checkFwd (processRequest exCfg { clientIP := cutLastColon (bs "[2001:db8::1]:51000") } exReq) (fun out =>
+      outValues out (bs "x-forwarded-for") == [bs "198.51.100.1, [2001:db8::1]"]) = true := by decide +kernel
+
+/-! ## 17 `Authorization` is an end-to-end field whatever the credentials table says -/
+
+/-- a client's `Authorization` (any scheme: the first value is not empty, the name is not nominated in
+    `Connection`) reaches the next hop with the client's values, all lines in order — with or without a
+    `--credentials` entry for the target -/
+theorem c01_client_authorization_kept (h : processRequest cfg ctx r = .forwarded hop out)
+    (hr : cfg.rules = []) (hnom : bs "authorization" ∉ nominated r)
+    (hfirst : (inValues r (bs "authorization")).headD [] ≠ []) :
+    outValues out (bs "authorization") = inValues r (bs "authorization") := by
+  rw [c01_authorization_exact h hr]
+  have hs : survivingValues r (bs "authorization") = inValues r (bs "authorization") := by
+    simp [survivingValues, hnom]
+  have he : (survivingFirst r (bs "authorization")).isEmpty = false := by
+    unfold survivingFirst
+    rw [hs]
+    cases hv : (inValues r (bs "authorization")).headD [] with
+    | nil => exact absurd hv hfirst
+    | cons _ _ => rfl
+  cases cfg.siteCred with
+  | none => exact hs
+  | some a => simp only [he, Bool.false_eq_true, if_false]; exact hs
+
+/-- the site-credential step of `processRequest` is `attachSiteCred` with the test "not empty" -/
+theorem c01_attach_site_cred_step (site : Option Bytes) (h5 : HMap) :
+    attachSiteCred (fun v => !v.isEmpty) site h5 =
+      (match site with
+       | some a => if (goGet h5 (bs "Authorization")).isEmpty then C16.goSet h5 (bs "Authorization") a else h5
+       | none => h5) := by
+  unfold attachSiteCred
+  cases site with
+  | none => rfl
+  | some a => cases he : (goGet h5 (bs "Authorization")).isEmpty <;> simp [he]
+
+/-- any test that accepts every non-empty value leaves a request with an `Authorization` alone -/
+theorem c01_attach_keeps_client {p : Bytes → Bool} (hp : ∀ v, v ≠ [] → p v = true)
+    (site : Option Bytes) {h5 : HMap} (hv : goGet h5 (bs "Authorization") ≠ []) :
+    attachSiteCred p site h5 = h5 := by
+  unfold attachSiteCred
+  cases site with
+  | none => rfl
+  | some a => simp [hp _ hv]
+
+/-- … and a test that accepts the `Basic` scheme only does not: a client's bearer token is replaced by
+    the site credential (the counter-model differs from the code on the field the hop receives) -/
+theorem c01_attach_basic_only_witness :
+    ∃ (h5 : HMap) (a : Bytes), goGet h5 (bs "Authorization") ≠ [] ∧
+      goGet (attachSiteCred basicScheme (some a) h5) (bs "Authorization") ≠ goGet h5 (bs "Authorization") ∧
+      attachSiteCred (fun v => !v.isEmpty) (some a) h5 = h5 :=
+  ⟨C16.goSet [] (bs "Authorization") (bs "Bearer tok"), bs "Basic c2l0ZTpwdw==", by decide +kernel,
+    by decide +kernel, c01_attach_keeps_client (fun v hv => by cases v <;> simp_all) _ (by decide +kernel)⟩
+
+example : checkFwd (processRequest { exCfg with siteCred := some (bs "Basic c2l0ZTpwdw==") } exCtx
+      { exReq with fields := exReq.fields ++ [(bs "authorization", bs "Negotiate YIIB"), (bs "Authorization", bs "")] })
+      (fun out => outValues out (bs "authorization") == [bs "Negotiate YIIB", bs ""]) = true ∧
+    checkFwd (processRequest { exCfg with siteCred := some (bs "Basic c2l0ZTpwdw==") } exCtx
+      { exReq with fields := exReq.fields ++ [(bs "authorization", bs ""), (bs "Authorization", bs "Bearer t")] })
+      (fun out => outValues out (bs "authorization") == [bs "Basic c2l0ZTpwdw=="]) = true ∧
+    basicScheme (bs "bAsIc Zm9v") = true ∧ basicScheme (bs "Bearer tok") = false := by decide +kernel
+
 /-
   What is not proved here.
   * Clauses 3 and 5b–9 (Host, Connection/Upgrade, User-Agent, Via, X-Forwarded-*, Accept-Encoding)
@@ -1099,7 +1262,8 @@ example :
     restated that way: `c01_end_to_end_preserved_rules`, `c01_hop_by_hop_removed_rules`).
     What the rules themselves do to the names they touch is C16 (`c16_apply_spec_partial`).
   * Site credentials (`cfg.siteCred`) only ever touch `Authorization` (a managed name); that they are
-    applied exactly when the client sent no `Authorization` is C06's clause and not restated here.
+    applied exactly when the client sent no `Authorization` is C06's clause; §17 restates the half that
+    is C01's: a client's own `Authorization` is end-to-end whatever the table says.
   * Body bytes are opaque to the model (`Body`/framing are decided, payload is observed by the
     correspondence runs only); `processConnection` works on parsed requests, not on the byte
     stream (no `Lib/Http1` parser yet), so position independence is by definition.  The same holds
